@@ -185,3 +185,88 @@ func VH_C17_S7_footprint() {
 	s.checkAll("after-pass-restart")
 	s.close()
 }
+
+// footprintOK asserts the C17/C18 footprint of one pass over [b,e] given the directory images
+// before and after: head and later files byte-identical, at most one earlier file changed, and
+// that one only by appending, with only empty files between it and the range.
+func (s *scen) footprintOK(where string, before, after [][]byte, b, e, head int) {
+	appended := -1
+	for c := range before {
+		switch {
+		case c >= b && c <= e:
+		case c == head:
+			vrt.Assert(where+":head-file-untouched", string(before[c]) == string(after[c]))
+		case c > e:
+			vrt.Assert(where+":files-after-the-range-untouched", string(before[c]) == string(after[c]))
+		default:
+			if string(before[c]) != string(after[c]) {
+				vrt.Assert(where+":earlier-file-only-appended-to", len(after[c]) > len(before[c]) && string(after[c][:len(before[c])]) == string(before[c]))
+				vrt.Assert(where+":at-most-one-earlier-file-written", appended < 0)
+				appended = c
+			}
+		}
+	}
+	if appended >= 0 {
+		for c := appended + 1; c < b; c++ {
+			vrt.Assert(where+":no-non-empty-file-between-destination-and-range", len(before[c]) == 0)
+		}
+	}
+}
+
+// C18-S8c / C03 / C17: a SEQUENCE of passes in one process (state a pass leaves in memory - write
+// heads, rewrite flags, hint state, GC history - is input of the next): pass 1 over any legal
+// range, pass 2 identical (must release nothing; thorough: any range), pass 3 over any legal
+// range. After every pass: reads equal the model, the range holds only current records each
+// once, the footprint rule holds byte for byte; finally a restart with all or no indexes.
+func VH_C18_S8_pass_sequence() {
+	s := newScen(768, false, "ka", "kb", "kc", "kd", "ke", "kf")
+	s.distinct = true
+	// every file keeps live records and holds garbage, so passes leave short non-empty files:
+	// file0: ka kb kc | file1: ka(2) kd ke | file2: kd(2) kb(2)/del(kb) kf | file3 (head): kf(2)
+	s.setS("ka")
+	s.setS("kb")
+	s.setS("kc")
+	s.setS("ka")
+	s.setS("kd")
+	s.setS("ke")
+	s.setS("kd")
+	if vrt.Bool("tombstone") {
+		s.del("kb")
+	} else {
+		s.setS("kb")
+	}
+	s.setS("kf")
+	s.setS("kf")
+	s.flush()
+	ranges := [][2]int{{0, 0}, {1, 1}, {2, 2}, {0, 1}, {1, 2}, {0, 2}}
+	const nChunks = 5
+	head := s.bkt().datas.newHead
+	merge := vrt.Bool("merge")
+	var r1 [2]int
+	for pass := 1; pass <= 3; pass++ {
+		var r [2]int
+		switch {
+		case pass == 1:
+			r = ranges[vrt.Choice("range1", len(ranges))]
+			r1 = r
+		case pass == 2 && vrt.Tier() == 0:
+			r = r1
+		default:
+			r = ranges[vrt.Choice("range", len(ranges))]
+		}
+		where := "pass" + string(rune('0'+pass))
+		before := s.dirImage(nChunks)
+		s.gc(r[0], r[1], merge)
+		after := s.dirImage(nChunks)
+		s.footprintOK(where, before, after, r[0], r[1], head)
+		s.checkAll(where)
+		s.reclaimed(r[0], r[1], where)
+		if pass == 2 && r == r1 {
+			g := s.bkt().GCHistory[len(s.bkt().GCHistory)-1]
+			vrt.Assert("identical-second-pass-releases-nothing", vrt.All(g.NumReleased == 0, g.SizeReleased == 0))
+		}
+	}
+	s.reopen([]int{0, 7}[vrt.Choice("rm", 2)])
+	s.checkAll("after-restart")
+	s.close()
+}
